@@ -26,7 +26,7 @@ DIALECT_RULE = ("each evaluation is one simulated world: graph sessions building
 PROPS = {
     "C14": dict(build="plain", runs_quick=12000, budget_quick=150, runs_thorough=100000, budget_thorough=1200, rule=DIALECT_RULE, timeout_quick=60,
                 level_text="seeded search; most of this property's quantifier (all connected graphs, options) is workload sampling -- the simulation contributes the heap-order, id-offset and interleaving dimensions only (weak claim)",
-                assumptions=["connected graphs of 3-14 nodes (thorough: up to 40), trees / cycles / trees with extra edges / hubs", "route ends may lie up to nodePaddingScalar x IEL outside the node box (documented padding)",
+                assumptions=["connected graphs of 3-14 nodes (thorough: up to 40), trees / cycles / trees with extra edges / hubs / a hub on two cycles carrying a tree / theta graphs (hubs joined by chains of 2-6 link nodes, chains for links); aspect-ratio preference and its tie-breaking growth direction drawn", "route ends may lie up to nodePaddingScalar x IEL outside the node box (documented padding)",
                              "a std::runtime_error from doHOLA (no feasible expansion) is a refusal, counted but not judged"]),
     "C19": dict(build="plain", runs_quick=20000, budget_quick=150, runs_thorough=400000, budget_thorough=900, rule=DIALECT_RULE,
                 level_text="seeded search; the decompositions are close to pure functions of the graph -- the simulation contributes heap order (planarise), id offsets and interleaving only (weak claim)",
@@ -39,23 +39,23 @@ PROPS = {
                 assumptions=["route ends compared as an unordered pair; a junction the improver moved counts at recommendedPosition()",
                              "junctions in the reported deleted list are excluded until the following transaction (documented: freed at the router's convenience)"]),
     "C10": dict(build="plain", runs_quick=90000, budget_quick=150, runs_thorough=400000, budget_thorough=900,
-                rule=ROUTER_RULE + "; C10 scenes: grid of cells with one rectangle each (corridors 20-160 wide), 2-7 orthogonal connectors with free end points, nudging distance 2-10, all nudging option combinations, histories of moves and re-nudging",
+                rule=ROUTER_RULE + "; C10 scenes: grid of cells with one rectangle each (corridors 20-160 wide), 2-7 orthogonal connectors with free end points, nudging distance 2-10, all nudging option combinations, histories of moves and re-nudging; structured members: doors (a wall with a too narrow and a wide door), staircases (connectors between pins of facing shapes that touch at bends), checkpoint on a straight run after an S-bend (pass-straight-through masks, all orientations)",
                 assumptions=["overlap clause armed only if at least one of the two segments is interior and the free channel around its whole extent is >= (connectors+1) x nudging distance on both sides",
-                             "two end segments on each other are not judged (both fixed); end-point clause only with nudgeOrthogonalSegmentsConnectedToShapes off",
+                             "two end segments that already overlapped in the raw routes are not judged (both fixed), an overlap that nudging creates between two end segments is; end-point clause only with nudgeOrthogonalSegmentsConnectedToShapes off", "with nudgeSharedPathsWithCommonEndPoint off a shared path that ends at an end point lying on the other connector's route is not judged (ambiguity of the option; 5.7 % of unchanged scenes)",
                              "minimum-distance clause: pairs that shared a path in route() and are separated in displayRoute() are >= distance/10 apart"]),
     "C11": dict(build="plain", runs_quick=30000, budget_quick=150, runs_thorough=400000, budget_thorough=900,
-                rule=ROUTER_RULE + "; C11 scenes: rectangles carrying side pins (class 1, exclusive, directed), a shared centre pin (class 2) and a quarter/absolute-offset pin (class 3), connectors attached up to pin capacity, checkpoints, histories of moves and resizes",
+                rule=ROUTER_RULE + "; C11 scenes: rectangles carrying side pins (class 1, exclusive, directed), a shared centre pin (class 2) and a quarter/absolute-offset pin (class 3, sometimes a second one stacked behind it at a deeper inside offset), connectors attached up to pin capacity, checkpoints, histories of moves and resizes",
                 assumptions=["pin positions recomputed by the harness from the documented offset rules on the model polygon", "connectors per (shape, exclusive class) never exceed the number of pins",
                              "insideOffset 0 on boundary pins is a separate swarm member with its own signature"]),
     "C13": dict(build="plain", runs_quick=20000, budget_quick=150, runs_thorough=400000, budget_thorough=900, rule=TOPO_RULE,
                 assumptions=["harness oracles: interior test with 1e-4 shrink, node overlap 1e-3, path ends, bends on corners turning towards their node; plus the library's own invariant checks as exceptions",
-                             "runs whose initial libavoid routes already fail the invariant are not judged (counted)"]),
+                             "runs whose initial libavoid routes already fail the invariant are not judged (counted)", "resize events grow or shrink a node by up to 30 units, 30 % of them by 40-120 units"]),
     "C07": dict(build="plain", runs_quick=30000, budget_quick=150, runs_thorough=600000, budget_thorough=900, rule=LAYOUT_RULE,
                 assumptions=["tolerance 1e-4 on every compound constraint; violated constraints must be in the reported unsatisfiable lists",
                              "relaxation: interrupted before the first completed iteration without makeFeasible -> only sizes/finiteness (nothing has been projected)"]),
     "C08": dict(build="plain", runs_quick=30000, budget_quick=150, runs_thorough=600000, budget_thorough=900, rule=LAYOUT_RULE,
                 assumptions=["armed after makeFeasible() followed by at least one completed iteration, nothing reported unsatisfiable",
-                             "user constraints and clusters are generated from a non-overlapping witness grid"]),
+                             "user constraints and clusters are generated from a non-overlapping witness grid", "a cluster built on a node rectangle (RectangularCluster(rectIndex)): the box and its members count as declared to overlap; such scenes carry no user constraints"]),
     "C15": dict(build="san", also_build="plain", also_runs_quick=20000, also_budget_quick=15, also_runs_thorough=600000, also_budget_thorough=600, runs_quick=6000, budget_quick=45, shrink_budget=60, runs_thorough=150000, budget_thorough=1200, rule=MIX_RULE, timeout_quick=60,
                 assumptions=["ASan+UBSan (recoverable) on all five libraries and the harness, LeakSanitizer check at the end of every run, library assertions as exceptions, watchdog",
                              "allocation failure is not injected (the property is about valid use)",
@@ -64,13 +64,13 @@ PROPS = {
                 assumptions=["routes and solver positions compared bit-exact, layout positions to 1e-9", "frame clauses (translation, symmetries, permutation) are input relations executed as twin sessions"]),
     "C03": dict(build="plain", runs_quick=45000, budget_quick=150, runs_thorough=400000, budget_thorough=900, rule=ROUTER_RULE,
                 assumptions=["validity judged against the shapes themselves (not the buffered routing polygons), tolerance 1e-7 in clip parameter",
-                             "interior clause only when a path exists among obstacles inflated by 1 unit",
+                             "interior clause only when a path exists among obstacles inflated by 1 unit (by the shape buffer distance when that is larger)", "buffered scenes place shapes 2*buffer+5, buffer, 5 or 0 apart (routing boxes may overlap); no edit may make two shape boxes overlap (refused by the executor)",
                              "after a cancelled transaction oracles are suspended until the next completed transaction (recovery clause)"]),
     "C04": dict(build="plain", runs_quick=60000, budget_quick=150, runs_thorough=300000, budget_thorough=900, rule=ROUTER_RULE,
                 assumptions=["separated (gap>=5) convex obstacles, free end points with all directions, angle/crossing penalties 0",
                              "penalty>0: violation only if costlier than the taut-path optimum; equal to taut but above the free optimum is known finding KF-C04-a"]),
     "C05": dict(build="plain", runs_quick=60000, budget_quick=150, runs_thorough=300000, budget_thorough=900, rule=ROUTER_RULE,
-                assumptions=["cost oracle armed for free end points with all directions; rectangles; buffer distance modelled by growing the boxes",
+                assumptions=["cost oracle armed for free end points with all directions; rectangles; buffer distance modelled by growing the boxes", "the segment penalty is changed on the live router between transactions (6 % of the edits); bends are priced with the value in force",
                              "the bend-estimator sentence of the statement is a pure function and is not decided here"]),
     "C06": dict(build="plain", runs_quick=36000, budget_quick=150, runs_thorough=250000, budget_thorough=900, rule=ROUTER_RULE,
                 assumptions=["cost equality armed with crossing/shared-path/cluster penalties 0 and free end points",
@@ -84,5 +84,5 @@ PROPS = {
                              "problem instances are sampled; histories/heap/schedule are the explored dimensions"]),
     "C02": dict(build="plain", runs_quick=55000, budget_quick=150, runs_thorough=3000000, budget_thorough=900, rule=VPSC_RULE,
                 assumptions=["oracle = Hildreth dual ascent with KKT self-check; no verdict (counted) when it does not converge",
-                             "agreement threshold 1e-4 x problem scale and strictly higher cost than the oracle optimum"]),
+                             "agreement threshold 1e-4 x problem scale and strictly higher cost than the oracle optimum", "re-solves on the live incremental solver move desired positions and (35 % of them) also change weights, as gradient projection does when it pins a node"]),
 }
